@@ -73,6 +73,15 @@ def monitor_c08(rng: random.Random, tier: str):
                 n += 1
                 if (a < b) and (b < c) and not (a < c):
                     report("transitivity", a=a, b=b, c=c)
+    # tiered TIMES of one length are ordered like their tuples: every operator, also the derived ones
+    for k, ts in times.items():
+        for x, y in itertools.product(ts, ts):
+            n += 1
+            tx, ty = tuple(x.tiers), tuple(y.tiers)
+            got = (safe(lambda: x < y), safe(lambda: x <= y), safe(lambda: x > y), safe(lambda: x >= y), x == y, hash(x) == hash(y) or x != y)
+            want = (tx < ty, tx <= ty, tx > ty, tx >= ty, tx == ty, True)
+            if got != want:
+                report("tiered times of one length are ordered like their tuples (<, <=, >, >=, ==, hash)", x=x, y=y, got=list(got), want=list(want))
     # adding never moves time backwards; action law; associativity
     for a in ivs:
         for t in times[a.pre_length]:
